@@ -218,7 +218,50 @@ def sinks(repo, gj, problems):
     return rows
 
 
+def tries(repo):
+    """every `try` statement of vyxal/*.py: (function, dominating `ctx.online` tests, handler types, first calls of its body) —
+    the error-containment sites of online mode are among them"""
+    rows = []
+    for mod in sorted(os.listdir(os.path.join(repo, "vyxal"))):
+        if not mod.endswith(".py") or mod == "dictionary.py":
+            continue
+        tree = ast.parse(open(os.path.join(repo, "vyxal", mod), encoding="utf-8").read())
+
+        def visit(node, fn, stack):
+            for field, value in ast.iter_fields(node):
+                kids = value if isinstance(value, list) else [value]
+                for ch in kids:
+                    if not isinstance(ch, ast.AST):
+                        continue
+                    nfn = ch.name if isinstance(ch, ast.FunctionDef) else fn
+                    nstack = stack
+                    if isinstance(node, (ast.If, ast.IfExp)):
+                        if field == "body":
+                            nstack = stack + [(node, "then")]
+                        elif field == "orelse":
+                            nstack = stack + [(node, "else")]
+                    if isinstance(ch, ast.Try):
+                        g = " & ".join((("not " if b == "else" else "") + ast.unparse(n.test)) for n, b in nstack
+                                       if "online" in ast.unparse(n.test))
+                        types = "|".join("bare" if h.type is None else ast.unparse(h.type) for h in ch.handlers)
+                        calls = [ast.unparse(c.func) for c in ast.walk(ast.Module(body=ch.body, type_ignores=[]))
+                                 if isinstance(c, ast.Call)][:4]
+                        rows.append((mod[:-3] + "." + str(nfn), g, types, ",".join(calls)))
+                    visit(ch, nfn, nstack)
+
+        visit(tree, None, [])
+    return rows
+
+
 def generate(repo, files, gj, problems):
+    tr = tries(repo)
+    files["Tries.lean"] = "\n".join([
+        "-- GENERATED by tools/extract.py from the repository's current source. Do not edit.",
+        "namespace Gen", "",
+        "/-- every `try` statement of vyxal/*.py: (function, dominating `ctx.online` tests, handler types, first calls of its body) -/",
+        "def tries : List (String × String × String × String) := [",
+        ",\n".join("  (%s, %s, %s, %s)" % (P.lstr(a), P.lstr(b), P.lstr(c), P.lstr(d)) for a, b, c, d in tr) + "]", "", "end Gen", ""])
+    gj["tries"] = [list(x) for x in tr]
     sk = sinks(repo, gj, problems)
     files["Sinks.lean"] = "\n".join([
         "-- GENERATED by tools/extract.py from the repository's current source. Do not edit.",
